@@ -87,7 +87,7 @@ def _c09_chunk(cases):
 
 def c09_cases(tier):
     rng = rng_for('C09', 'cases')
-    names = ['x', 'foo*', 'emph']
+    names = ['x', 'foo*', 'emph', 'it', 'em', 't', 'i', 'e', 'en', 'b']
     # names just outside the fixed-signature table: starred and near-miss
     # variants of its keys (read from the library at run time)
     try:
